@@ -339,6 +339,19 @@ func meshHistories2(r *vlib.Run) {
 		check("MapCoords.merge", mesh.MapCoords(round), func(s vlib.Seg) vlib.Seg { return vlib.Seg{round(s[0]), round(s[1])} })
 		sc := 0.5 + rng.Float64()*2
 		check("Scale", mesh.Scale(sc), func(s vlib.Seg) vlib.Seg { return vlib.Seg{s[0].Scale(sc), s[1].Scale(sc)} })
+		check("Invert", mesh.Invert(), func(s vlib.Seg) vlib.Seg { return vlib.Seg{s[1], s[0]} })
+		check("Invert.twice", mesh.Invert().Invert(), id)
+		ang := rng.Float64() * 7
+		rot := model2d.Rotation(ang)
+		check("Rotate", mesh.Rotate(ang), func(s vlib.Seg) vlib.Seg { return vlib.Seg{rot.Apply(s[0]), rot.Apply(s[1])} })
+		if len(mod.faces) > 0 {
+			mn, mx := mod.faces[0][0], mod.faces[0][0]
+			for _, f := range mod.faces {
+				mn, mx = mn.Min(f[0]).Min(f[1]), mx.Max(f[0]).Max(f[1])
+			}
+			off := mn.Mid(mx).Scale(-1)
+			check("Center", mesh.Center(), func(s vlib.Seg) vlib.Seg { return vlib.Seg{s[0].Add(off), s[1].Add(off)} })
+		}
 		c.Count("mesh2d.histories", 1)
 		c.Count("mesh2d.operations", int64(len(hist)))
 		if muts >= 8 {
